@@ -397,6 +397,8 @@ class Interp:
             raise Unsupported('load through non-pointer %r' % (p,))
         if p.base in ('null', 'abs'):
             raise Unsupported('load through null/absolute pointer')
+        if hasattr(self.dom, 'on_access'):
+            self.dom.on_access('load', p, ty, st, self)
         key = (p.base, self.dom.off_key(p.off))
         if key in st.store:
             v, t = st.store[key]
@@ -423,6 +425,8 @@ class Interp:
             raise Unsupported('store through non-pointer %r' % (p,))
         if p.base in ('null', 'abs'):
             raise Unsupported('store through null/absolute pointer')
+        if hasattr(self.dom, 'on_access'):
+            self.dom.on_access('store', p, ty, st, self)
         k = self.dom.off_key(p.off)
         if not isinstance(k, int):
             # symbolic offset: weak update unless exact key known
